@@ -978,3 +978,51 @@ def specfun_wrap_concrete(p, m):
         return None, 'UNCONFIRMED'
     finally:
         mp.prec = 53
+
+
+# ------------------------------------------------------------------------------ powm1: exactly zero when x**y == 1
+def powm1_exact(p):
+    """mp.powm1(x, y) for the exact cases x**y == 1: y == 0 with x an arbitrary nonzero real (symbolic), and x in {1, -1} with y
+    an arbitrary integer-valued real (symbolic mantissa, exponent >= 0): the result is exactly 0 (resp. exactly -2 for x = -1 and
+    odd y)."""
+    case, prec = p['case'], p.get('prec', 20)
+    mp = _ctx(prec)
+    ob = Ob(wbump(p, 120), timeout_s=p.get('_t', 60))
+    if case == 'y0':
+        x = mp.make_mpf(ob.mpf('x', 5, exp=ob.int('x_exp', -20, 20)))
+        y = mp.mpf(0)
+        want = lambda: FZERO
+    else:
+        x = mp.mpf(1 if case == 'x1' else -1)
+        ye = p.get('yexp', 0)
+        ym = ob.mpf('y', 4, exp=ye)
+        y = mp.make_mpf(ym)
+    outs = ob.run(mp.powm1, [x, y])
+
+    def good(val, st):
+        if not isinstance(val, mp.mpf):
+            return False
+        h = st.heap.get((id(val), '_mpf_'))
+        t = h[1] if h is not None else val._mpf_
+        if case in ('y0', 'x1'):
+            return is_tuple(t, FZERO)
+        # x = -1: y = man * 2**ye is even iff ye >= 1 (man is odd)
+        return is_tuple(t, FZERO) if p.get('yexp', 0) >= 1 else is_tuple(t, (1, 1, 1, 1))
+    return finish(ob, ob.prove(outs, good))
+
+
+def powm1_exact_concrete(p, m):
+    case, prec = p['case'], p.get('prec', 20)
+    mp = _ctx(prec)
+    try:
+        if case == 'y0':
+            x = mp.make_mpf((m.get('x_sign', 0), m.get('x_man', 17), m.get('x_exp', 0), 5))
+            r = mp.powm1(x, 0)
+            return r._mpf_ == FZERO, 'powm1(%r, 0) = %r' % (x, r)
+        x = 1 if case == 'x1' else -1
+        y = mp.make_mpf((m.get('y_sign', 0), m.get('y_man', 9), p.get('yexp', 0), 4))
+        r = mp.powm1(x, y)
+        want = FZERO if (case == 'x1' or p.get('yexp', 0) >= 1) else (1, 1, 1, 1)
+        return r._mpf_ == want, 'powm1(%d, %r) = %r' % (x, y, r)
+    finally:
+        mp.prec = 53
